@@ -38,13 +38,68 @@ Definition mr_step (A M : mat) (b x : vec) : vec :=
   axpy (qdiv (dotq p z) (dotq p p)) z x.
 Definition mr (A M : mat) (b x0 : vec) (k : nat) : list vec := iterates k (mr_step A M b) x0.
 
+(* ---- conjugate residuals, CGNR, CGNE exactly as the loops of _cr.py, _cgnr.py, _cgne.py are written (left
+   preconditioner M; the residual is recomputed from x when it mod 8 = 0 and updated otherwise) ---- *)
+Definition mtr (A : mat) (n : nat) : mat := map (fun j => map (fun row => nth j row 0) A) (seq 0 n).
+Definition vscale (a : Q) (x : vec) : vec := map (qmul a) x.
+Definition rcomp (it : nat) : bool := Nat.eqb (Nat.modulo it 8) 0.
+
+Record crst := { rx : vec; rr : vec; rp : vec; rAp : vec; rrAz : Q; rit : nat }.
+Definition cr_init (A M : mat) (b x0 : vec) : crst :=
+  let r := vsub b (mv A x0) in let z := mv M r in let Az := mv A z in
+  {| rx := x0; rr := r; rp := z; rAp := mv A z; rrAz := dotq r Az; rit := 0 |}.
+Definition cr_step (A M : mat) (b : vec) (s : crst) : crst :=
+  let alpha := qdiv (rrAz s) (dotq (rAp s) (rAp s)) in
+  let x := axpy alpha (rp s) (rx s) in
+  let r := if rcomp (rit s) then vsub b (mv A x) else vsub (rr s) (vscale alpha (rAp s)) in
+  let z := mv M r in
+  let Az := mv A z in
+  let rAz := dotq r Az in
+  let beta := qdiv rAz (rrAz s) in
+  {| rx := x; rr := r; rp := axpy beta (rp s) z; rAp := axpy beta (rAp s) Az; rrAz := rAz; rit := S (rit s) |}.
+Definition crq (A M : mat) (b x0 : vec) (k : nat) : list vec := map rx (iterates k (cr_step A M b) (cr_init A M b x0)).
+
+Record nst := { nx : vec; nr : vec; np : vec; nzr : Q; nit : nat }.
+Definition cgnr_init (A M : mat) (b x0 : vec) : nst :=
+  let At := mtr A (length x0) in
+  let r := vsub b (mv A x0) in let rhat := mv At r in let z := mv M rhat in
+  {| nx := x0; nr := r; np := z; nzr := dotq z rhat; nit := 0 |}.
+Definition cgnr_step (A M : mat) (b : vec) (s : nst) : nst :=
+  let At := mtr A (length (nx s)) in
+  let w := mv A (np s) in
+  let alpha := qdiv (nzr s) (dotq w w) in
+  let x := axpy alpha (np s) (nx s) in
+  let r := if rcomp (nit s) then vsub b (mv A x) else vsub (nr s) (vscale alpha w) in
+  let rhat := mv At r in
+  let z := mv M rhat in
+  let new := dotq z rhat in
+  let beta := qdiv new (nzr s) in
+  {| nx := x; nr := r; np := axpy beta (np s) z; nzr := new; nit := S (nit s) |}.
+Definition cgnrq (A M : mat) (b x0 : vec) (k : nat) : list vec := map nx (iterates k (cgnr_step A M b) (cgnr_init A M b x0)).
+
+Definition cgne_init (A M : mat) (b x0 : vec) : nst :=
+  let At := mtr A (length x0) in
+  let r := vsub b (mv A x0) in let z := mv M r in
+  {| nx := x0; nr := r; np := mv At z; nzr := dotq z r; nit := 0 |}.
+Definition cgne_step (A M : mat) (b : vec) (s : nst) : nst :=
+  let At := mtr A (length (nx s)) in
+  let alpha := qdiv (nzr s) (dotq (np s) (np s)) in
+  let x := axpy alpha (np s) (nx s) in
+  let r := if rcomp (nit s) then vsub b (mv A x) else vsub (nr s) (vscale alpha (mv A (np s))) in
+  let z := mv M r in
+  let new := dotq z r in
+  let beta := qdiv new (nzr s) in
+  {| nx := x; nr := r; np := axpy beta (np s) (mv At z); nzr := new; nit := S (nit s) |}.
+Definition cgneq (A M : mat) (b x0 : vec) (k : nat) : list vec := map nx (iterates k (cgne_step A M b) (cgne_init A M b x0)).
+
 (* comparison to tolerance: every entry within tol * (1 + |model|) *)
 Definition close (tol : Q) (a b : Q) : bool := Qle_bool (Qabs (a - b)) (tol * (1 + Qabs a)).
 Definition vclose tol (u v : vec) : bool := (Nat.eqb (length u) (length v)) && forallb (fun p => close tol (fst p) (snd p)) (combine u v).
-(* (method: 0 cg, 1 sd, 2 mr ; A ; M ; b ; x0 ; tol ; expected iterates) *)
+(* (method: 0 cg, 1 sd, 2 mr, 3 cr, 4 cgnr, 5 cgne ; A ; M ; b ; x0 ; tol ; expected iterates) *)
 Definition caseT := (nat * mat * mat * vec * vec * Q * list vec)%type.
 Definition chk (c : caseT) : bool :=
   let '(m, A, M, b, x0, tol, expected) := c in
   let k := length expected in
-  let got := match m with 0%nat => cg A M b x0 k | 1%nat => sd A M b x0 k | _ => mr A M b x0 k end in
+  let got := match m with 0%nat => cg A M b x0 k | 1%nat => sd A M b x0 k | 2%nat => mr A M b x0 k
+                         | 3%nat => crq A M b x0 k | 4%nat => cgnrq A M b x0 k | _ => cgneq A M b x0 k end in
   (Nat.eqb (length got) k) && forallb (fun p => vclose tol (fst p) (snd p)) (combine got expected).
